@@ -35,8 +35,12 @@ def gen_behaviours(cfg, module, out, procs, num, depth, seed, timeout=900, max_p
                 raise vlib.ToolError(f"TLC simulation failed for {cfg}:\n" + r.out[-3000:])
             if r.invariant and r.invariant != "EmitAtDepth":
                 raise vlib.Violation("model", f"simulation found a violated invariant {r.invariant} in {cfg}:\n" + r.out[-4000:])
-            for b in replay_lines(r.out):
+            lines = list(replay_lines(r.out))
+            for idx, b in enumerate(lines):
                 steps = b["steps"]
+                # the first half of a trace is kept only if the trace died before reaching its full depth
+                if idx + 1 < len(lines) and len(lines[idx + 1]["steps"]) > len(steps) and lines[idx + 1]["steps"][:len(steps)] == steps:
+                    continue
                 pk = hashlib.sha1(json.dumps(steps[:-1], sort_keys=True).encode()).hexdigest()
                 seen[pk] = seen.get(pk, 0) + 1
                 if seen[pk] > max_per_prefix:
